@@ -1,1 +1,434 @@
-// placeholder
+//! The harness's own AST and pretty-printer. Nothing here is shared with the real front end:
+//! programs are generated as these trees, printed to text, and only the text reaches the
+//! implementation.
+
+#[derive(Clone, Copy, Debug, PartialEq, Eq, Hash)]
+pub enum Op {
+    Add,
+    Sub,
+    Mul,
+    Div,
+    Mod,
+    And,
+    Or,
+    Eq,
+    Gt,
+    Lt,
+}
+
+impl Op {
+    pub fn words(self) -> &'static [&'static str] {
+        match self {
+            Op::Add => &["add"],
+            Op::Sub => &["minus"],
+            Op::Mul => &["times"],
+            Op::Div => &["divide"],
+            Op::Mod => &["mod"],
+            Op::And => &["and"],
+            Op::Or => &["or"],
+            Op::Eq => &["na"],
+            Op::Gt => &["pass"],
+            Op::Lt => &["small", "pass"],
+        }
+    }
+    /// documented precedence, lowest to highest
+    pub fn prec(self) -> u8 {
+        match self {
+            Op::Or => 1,
+            Op::And => 2,
+            Op::Eq | Op::Gt | Op::Lt => 3,
+            Op::Add | Op::Sub => 4,
+            Op::Mul | Op::Div | Op::Mod => 5,
+        }
+    }
+    pub fn is_cmp(self) -> bool {
+        matches!(self, Op::Eq | Op::Gt | Op::Lt)
+    }
+}
+
+/// String literal part. `Lit` holds the *actual* text (unescaped).
+#[derive(Clone, Debug, PartialEq, Eq, Hash)]
+pub enum SP {
+    Lit(String),
+    Var(String),
+}
+
+#[derive(Clone, Debug, PartialEq)]
+pub enum E {
+    Num(String),
+    Str(Vec<SP>),
+    Bool(bool),
+    Null,
+    Var(String),
+    Bin(Op, Box<E>, Box<E>),
+    Not(Box<E>),
+    Neg(Box<E>),
+    Arr(Vec<E>),
+    Idx(Box<E>, Box<E>),
+    Call(String, Vec<E>),
+    Meth(Box<E>, String, Vec<E>),
+    /// explicit redundant parentheses (C10)
+    Paren(Box<E>),
+}
+
+#[derive(Clone, Debug, PartialEq)]
+pub enum S {
+    Make(String, Option<E>),
+    Set(String, E),
+    SetIdx(E, E),
+    If(E, Vec<S>, Option<Vec<S>>),
+    Loop(E, Vec<S>),
+    Block(Vec<S>),
+    Func(String, Vec<String>, Vec<S>),
+    Ret(Option<E>),
+    Break,
+    Next,
+    Expr(E),
+}
+
+// convenience constructors -------------------------------------------------------------
+
+pub fn num(s: &str) -> E {
+    E::Num(s.to_string())
+}
+pub fn st(s: &str) -> E {
+    E::Str(vec![SP::Lit(s.to_string())])
+}
+pub fn var(s: &str) -> E {
+    E::Var(s.to_string())
+}
+pub fn bin(op: Op, a: E, b: E) -> E {
+    E::Bin(op, Box::new(a), Box::new(b))
+}
+pub fn call(f: &str, args: Vec<E>) -> E {
+    E::Call(f.to_string(), args)
+}
+pub fn meth(r: E, m: &str, args: Vec<E>) -> E {
+    E::Meth(Box::new(r), m.to_string(), args)
+}
+pub fn idx(a: E, i: E) -> E {
+    E::Idx(Box::new(a), Box::new(i))
+}
+pub fn shout(e: E) -> S {
+    S::Expr(call("shout", vec![e]))
+}
+pub fn make(v: &str, e: E) -> S {
+    S::Make(v.to_string(), Some(e))
+}
+pub fn set(v: &str, e: E) -> S {
+    S::Set(v.to_string(), e)
+}
+pub fn func(name: &str, params: &[&str], body: Vec<S>) -> S {
+    S::Func(name.to_string(), params.iter().map(|p| (*p).to_string()).collect(), body)
+}
+
+// tokens -------------------------------------------------------------------------------
+
+#[derive(Clone, Debug, PartialEq, Eq)]
+pub enum TK {
+    Word,
+    Num,
+    Str,
+    Punct,
+}
+
+#[derive(Clone, Debug, PartialEq, Eq)]
+pub struct Tok {
+    pub text: String,
+    pub kind: TK,
+    /// this word and the next belong to one multi-word keyword (`if to say`, `small pass`)
+    pub kw_inner: bool,
+}
+
+fn w(out: &mut Vec<Tok>, s: &str) {
+    out.push(Tok { text: s.to_string(), kind: TK::Word, kw_inner: false });
+}
+fn words(out: &mut Vec<Tok>, ws: &[&str]) {
+    for (i, x) in ws.iter().enumerate() {
+        out.push(Tok { text: (*x).to_string(), kind: TK::Word, kw_inner: i + 1 < ws.len() });
+    }
+}
+fn p(out: &mut Vec<Tok>, s: &str) {
+    out.push(Tok { text: s.to_string(), kind: TK::Punct, kw_inner: false });
+}
+
+/// Prints a string literal. Returns None if the literal cannot be expressed faithfully by
+/// the documented syntax (an escape sequence together with a placeholder or brace).
+pub fn string_literal(parts: &[SP]) -> Option<String> {
+    let needs_escape = parts.iter().any(|x| match x {
+        SP::Lit(t) => t.contains(['"', '\\', '\n', '\t', '\r']),
+        SP::Var(_) => false,
+    });
+    let has_open = parts.iter().any(|x| match x {
+        SP::Lit(t) => t.contains('{'),
+        SP::Var(_) => true,
+    });
+    let has_brace = has_open
+        || parts.iter().any(|x| matches!(x, SP::Lit(t) if t.contains('}')));
+    if needs_escape && has_brace {
+        return None;
+    }
+    let mut s = String::from("\"");
+    for part in parts {
+        match part {
+            SP::Var(v) => {
+                s.push('{');
+                s.push_str(v);
+                s.push('}');
+            }
+            SP::Lit(t) => {
+                for c in t.chars() {
+                    match c {
+                        '"' => s.push_str("\\\""),
+                        '\\' => s.push_str("\\\\"),
+                        '\n' => s.push_str("\\n"),
+                        '\t' => s.push_str("\\t"),
+                        '\r' => return None,
+                        '{' => s.push_str("{{"),
+                        '}' if has_open => s.push_str("}}"),
+                        c => s.push(c),
+                    }
+                }
+            }
+        }
+    }
+    s.push('"');
+    Some(s)
+}
+
+fn prec_of(e: &E) -> u8 {
+    match e {
+        E::Bin(op, ..) => op.prec(),
+        E::Not(_) | E::Neg(_) => 6,
+        _ => 7,
+    }
+}
+
+fn expr_toks(e: &E, out: &mut Vec<Tok>) {
+    match e {
+        E::Num(n) => out.push(Tok { text: n.clone(), kind: TK::Num, kw_inner: false }),
+        E::Str(parts) => out.push(Tok {
+            text: string_literal(parts).unwrap_or_else(|| "\"<unprintable>\"".into()),
+            kind: TK::Str,
+            kw_inner: false,
+        }),
+        E::Bool(b) => w(out, if *b { "true" } else { "false" }),
+        E::Null => w(out, "null"),
+        E::Var(v) => w(out, v),
+        E::Paren(x) => {
+            p(out, "(");
+            expr_toks(x, out);
+            p(out, ")");
+        }
+        E::Bin(op, a, b) => {
+            // left-associative: left child needs parens when it binds looser; right child when
+            // it does not bind tighter. A unary as the left operand of a comparison is always
+            // parenthesised (relative placing of `not` and comparisons is not documented).
+            let lp = prec_of(a) < op.prec() || (op.is_cmp() && prec_of(a) == 6);
+            let rp = prec_of(b) <= op.prec();
+            paren_if(lp, a, out);
+            words(out, op.words());
+            paren_if(rp, b, out);
+        }
+        E::Not(x) | E::Neg(x) => {
+            w(out, if matches!(e, E::Not(_)) { "not" } else { "minus" });
+            // operand that is itself binary is always parenthesised
+            paren_if(prec_of(x) < 6, x, out);
+        }
+        E::Arr(items) => {
+            p(out, "[");
+            for (i, it) in items.iter().enumerate() {
+                if i > 0 {
+                    p(out, ",");
+                }
+                expr_toks(it, out);
+            }
+            p(out, "]");
+        }
+        E::Idx(a, i) => {
+            postfix_base(a, out);
+            p(out, "[");
+            expr_toks(i, out);
+            p(out, "]");
+        }
+        E::Call(f, args) => {
+            w(out, f);
+            arg_toks(args, out);
+        }
+        E::Meth(r, m, args) => {
+            postfix_base(r, out);
+            p(out, ".");
+            w(out, m);
+            arg_toks(args, out);
+        }
+    }
+}
+
+fn arg_toks(args: &[E], out: &mut Vec<Tok>) {
+    p(out, "(");
+    for (i, a) in args.iter().enumerate() {
+        if i > 0 {
+            p(out, ",");
+        }
+        expr_toks(a, out);
+    }
+    p(out, ")");
+}
+
+fn postfix_base(a: &E, out: &mut Vec<Tok>) {
+    // integer literals need parentheses before `.` (`9.` would lex as a malformed number),
+    // and anything that is not primary does too
+    let needs = match a {
+        E::Num(n) => !n.contains('.'),
+        x => prec_of(x) < 7,
+    };
+    paren_if(needs, a, out);
+}
+
+fn paren_if(c: bool, e: &E, out: &mut Vec<Tok>) {
+    if c {
+        p(out, "(");
+        expr_toks(e, out);
+        p(out, ")");
+    } else {
+        expr_toks(e, out);
+    }
+}
+
+fn block_toks(b: &[S], out: &mut Vec<Tok>) {
+    w(out, "start");
+    for s in b {
+        stmt_toks(s, out);
+    }
+    w(out, "end");
+}
+
+pub fn stmt_toks(s: &S, out: &mut Vec<Tok>) {
+    match s {
+        S::Make(v, e) => {
+            w(out, "make");
+            w(out, v);
+            if let Some(e) = e {
+                w(out, "get");
+                expr_toks(e, out);
+            }
+        }
+        S::Set(v, e) => {
+            w(out, v);
+            w(out, "get");
+            expr_toks(e, out);
+        }
+        S::SetIdx(t, e) => {
+            expr_toks(t, out);
+            w(out, "get");
+            expr_toks(e, out);
+        }
+        S::If(c, t, e) => {
+            words(out, &["if", "to", "say"]);
+            p(out, "(");
+            expr_toks(c, out);
+            p(out, ")");
+            block_toks(t, out);
+            if let Some(e) = e {
+                words(out, &["if", "not", "so"]);
+                block_toks(e, out);
+            }
+        }
+        S::Loop(c, b) => {
+            w(out, "jasi");
+            p(out, "(");
+            expr_toks(c, out);
+            p(out, ")");
+            block_toks(b, out);
+        }
+        S::Block(b) => block_toks(b, out),
+        S::Func(name, params, body) => {
+            w(out, "do");
+            w(out, name);
+            p(out, "(");
+            for (i, q) in params.iter().enumerate() {
+                if i > 0 {
+                    p(out, ",");
+                }
+                w(out, q);
+            }
+            p(out, ")");
+            block_toks(body, out);
+        }
+        S::Ret(e) => {
+            w(out, "return");
+            if let Some(e) = e {
+                expr_toks(e, out);
+            }
+        }
+        S::Break => w(out, "comot"),
+        S::Next => w(out, "next"),
+        S::Expr(e) => expr_toks(e, out),
+    }
+}
+
+pub fn prog_toks(prog: &[S]) -> Vec<Tok> {
+    let mut out = Vec::new();
+    for s in prog {
+        stmt_toks(s, &mut out);
+    }
+    out
+}
+
+/// Canonical layout: single spaces between tokens, none around punctuation where the
+/// token boundaries stay unambiguous.
+pub fn print(prog: &[S]) -> String {
+    join_toks(&prog_toks(prog))
+}
+
+pub fn join_toks(toks: &[Tok]) -> String {
+    let mut s = String::new();
+    for (i, t) in toks.iter().enumerate() {
+        if i > 0 {
+            let prev = &toks[i - 1];
+            let tight = matches!(
+                (prev.text.as_str(), t.text.as_str()),
+                ("(", _) | (_, ")") | ("[", _) | (_, "]") | (_, ",") | (".", _) | (_, ".")
+            ) || (t.text == "(" && prev.kind == TK::Word && !is_kw(&prev.text))
+                || (t.text == "[" && (prev.kind == TK::Word && !is_kw(&prev.text) || prev.text == "]" || prev.text == ")"));
+            if !tight {
+                s.push(' ');
+            }
+        }
+        s.push_str(&t.text);
+    }
+    s
+}
+
+pub fn is_kw(t: &str) -> bool {
+    matches!(
+        t,
+        "make" | "get" | "add" | "minus" | "times" | "divide" | "mod" | "and" | "or" | "not" | "jasi"
+            | "start" | "end" | "comot" | "next" | "na" | "pass" | "small" | "if" | "to" | "say"
+            | "so" | "true" | "false" | "null" | "do" | "return"
+    )
+}
+
+/// A bare `return` swallows a following expression statement (there is no statement
+/// separator): such programs cannot be printed faithfully.
+pub fn printable(prog: &[S]) -> bool {
+    fn blk(b: &[S]) -> bool {
+        for (i, s) in b.iter().enumerate() {
+            if matches!(s, S::Ret(None)) && i + 1 < b.len() {
+                return false;
+            }
+            if !stmt(s) {
+                return false;
+            }
+        }
+        true
+    }
+    fn stmt(s: &S) -> bool {
+        match s {
+            S::If(_, t, e) => blk(t) && e.as_ref().is_none_or(|e| blk(e)),
+            S::Loop(_, b) | S::Block(b) | S::Func(_, _, b) => blk(b),
+            _ => true,
+        }
+    }
+    blk(prog)
+}
